@@ -134,6 +134,25 @@ func (p *Program) refusalEdge(ifi *ssa.If) int {
 	// per successor: 2 = returns a freshly built error (a refusal), 1 = returns an error that may be non-nil
 	// (e.g. the result of the next processing step), 0 = neither
 	var grade [2]int
+	// a clamp (`if size > limit { size = limit }` right before a shared return) decides nothing about refusal: both
+	// arms end in the same return
+	reach := func(b *ssa.BasicBlock) *ssa.Return {
+		for hop := 0; hop < 4 && b != nil; hop++ {
+			for _, in := range b.Instrs {
+				if rt, ok := in.(*ssa.Return); ok {
+					return rt
+				}
+			}
+			if len(b.Succs) != 1 {
+				return nil
+			}
+			b = b.Succs[0]
+		}
+		return nil
+	}
+	if r0, r1 := reach(ifi.Block().Succs[0]), reach(ifi.Block().Succs[1]); r0 != nil && r0 == r1 {
+		return -1
+	}
 	for succ := 0; succ < 2; succ++ {
 		b := ifi.Block().Succs[succ]
 		for _, in := range b.Instrs {
